@@ -148,6 +148,7 @@ PROPS = {
             "quick": [
                 ("fifo", C(Tasks=["t1"], InitMax=3, MaxObjs=4, Budget=7, ThreadLevel=False, AllowRetain=True, AllowSuspend=False, AllowCancel=False, GetModes=["nb"]), True),
                 ("lifo", C(Tasks=["t1"], InitMax=3, MaxObjs=4, Budget=7, ThreadLevel=False, AllowRetain=True, AllowSuspend=False, AllowCancel=False, GetModes=["nb"], Lifo=True), True),
+                ("shrink", C(Tasks=["t1"], InitMax=4, MaxObjs=4, Budget=7, ThreadLevel=False, ResizeTargets=[2, 3], AllowFail=False, AllowSuspend=False, AllowCancel=False, GetModes=["nb"]), True),
                 ("two", C(InitMax=3, MaxObjs=3, Budget=5, ThreadLevel=False, AllowRetain=True, AllowSuspend=False, AllowCancel=False, AllowFail=False, GetModes=["nb"]), True),
             ],
             "thorough": [
@@ -161,8 +162,9 @@ PROPS = {
         "invariants": ["Inv_C09b", "Inv_C02c"], "actprops": [], "preds": ["C09a", "C09b", "C09c"],
         "configs": {
             "quick": [
-                ("rt", C(InitMax=2, Budget=4, AllowRetain=True, AllowTake=True, AllowSuspend=False, AllowCancel=False), True),
+                ("rt", C(InitMax=2, Budget=4, AllowRetain=True, AllowTake=True, AllowSuspend=False, AllowCancel=False, GetModes=["nb"]), True),
                 ("rsz", C(InitMax=2, Budget=4, AllowRetain=True, ResizeTargets=[1], AllowClose=True, AllowSuspend=False, AllowCancel=False, AllowFail=False, GetModes=["bl"]), True),
+                ("tkrsz", C(Tasks=["t1"], InitMax=2, Budget=6, AllowTake=True, ResizeTargets=[0, 1], AllowClose=True, AllowSuspend=False, AllowCancel=False, AllowFail=False, GetModes=["nb"], ThreadLevel=False), True),
             ],
             "thorough": [
                 ("rt", C(InitMax=2, Budget=5, AllowRetain=True, AllowTake=True, AllowCancel=False), True),
@@ -177,6 +179,7 @@ PROPS = {
             "quick": [
                 ("m1", C(InitMax=1, Budget=4, AllowTake=True, AllowRetain=True), True),
                 ("rsz", C(InitMax=2, Budget=3, ResizeTargets=[1, 3], AllowClose=True, AllowSuspend=False, AllowCancel=False), True),
+                ("nort", C(InitMax=2, Budget=4, GetModes=["nb", "timed"], CreateTO=["none", "finite"], RecycleTO=["none", "finite"], HasRuntime=False, AllowSuspend=False, AllowCancel=False, AllowFail=False), True),
             ],
             "thorough": [
                 ("m1", C(InitMax=1, Budget=5, AllowTake=True, AllowRetain=True, AllowPanic=True), True),
@@ -298,8 +301,14 @@ PROPS["C15"] = {
             ("r2d2", C(MaxSize=2, NConns=4, Budget=5, AllowBreak=True, AllowInvalid=True), True, {"hcfg": {"backend": "r2d2"}}),
             ("sqlite", C(MaxSize=1, NConns=3, Budget=5), True, {"hcfg": {"backend": "sqlite"}}),
             ("diesel", C(MaxSize=1, NConns=3, Budget=5, AllowBreak=True), True, {"hcfg": {"backend": "diesel"}}),
+            ("diesel_verified", C(MaxSize=1, NConns=3, Budget=4, AllowBreak=True), True, {"hcfg": {"backend": "diesel_verified"}}),
+            ("diesel_query", C(MaxSize=1, NConns=3, Budget=4, AllowBreak=True, AllowInvalid=True), True, {"hcfg": {"backend": "diesel_query"}}),
+            ("diesel_fn", C(MaxSize=1, NConns=3, Budget=4, AllowBreak=True, AllowInvalid=True), True, {"hcfg": {"backend": "diesel_fn"}}),
         ],
         "thorough": [
+            ("diesel_verified", C(MaxSize=2, NConns=4, Budget=5, AllowBreak=True), True, {"hcfg": {"backend": "diesel_verified"}}),
+            ("diesel_query", C(MaxSize=2, NConns=4, Budget=5, AllowBreak=True, AllowInvalid=True), True, {"hcfg": {"backend": "diesel_query"}}),
+            ("diesel_fn", C(MaxSize=2, NConns=4, Budget=5, AllowBreak=True, AllowInvalid=True), True, {"hcfg": {"backend": "diesel_fn"}}),
             ("r2d2", C(MaxSize=2, NConns=5, Budget=7, AllowBreak=True, AllowInvalid=True), True, {"hcfg": {"backend": "r2d2"}}),
             ("r2d2m3", C(MaxSize=3, NConns=5, Budget=6, AllowBreak=True), True, {"hcfg": {"backend": "r2d2"}}),
             ("sqlite", C(MaxSize=2, NConns=4, Budget=6), True, {"hcfg": {"backend": "sqlite"}}),
@@ -334,7 +343,7 @@ PROPS["C19"] = {
 PROPS["C17"] = {
     "kind": "redismgr", "xh": True,
     "invariants": ["Inv_DeadStayDead", "Inv_Capacity"], "actprops": ["Act_C17", "Act_FreshPing"],
-    "preds": ["R17a", "R17b", "R17c"],
+    "preds": ["R17a", "R17b", "R17c", "R17d"],
     "obs_sample": {"quick": 1, "thorough": 1},
     "configs": {
         "quick": [
@@ -413,3 +422,25 @@ PROPS["C02"]["configs"]["quick"].append(
 PROPS["C02"]["configs"]["thorough"].append(
     ("live", C(Tasks=["t1", "t2", "t3"], InitMax=2, MaxObjs=3, Budget=4, GetModes=["bl", "timed"], HoldAndWait=False,
                ResizeTargets=[1, 3], AllowTake=True), False, LIVE))
+
+# vacuity guard: actions of the specification that must have been taken (TLC -coverage) in some
+# configuration of the property's check, or the check is a tool error
+REQUIRED_ACTIONS = {
+    "C01": ["GPop", "Call", "Cancel", "GWaitCancel", "TkLock", "RtPred", "UDrop", "CUnres"],
+    "C02": ["GWaitPoll", "GWaitExpire", "Cancel", "UDrop", "CUnres", "TkAdd", "RetAdd"],
+    "C03": ["Cancel", "GWaitCancel", "UDrop", "CUnres", "Resume"],
+    "C04": ["Call", "Resume", "Expire", "UDrop", "CUnres", "GExit"],
+    "C05": ["AAcq", "AWaitPoll", "AWaitCancel", "Tk", "DPush", "GWaitPoll", "GWaitCancel"],
+    "C06": ["ClLock", "RsLock", "GWaitPoll", "DropPool", "RetLock"],
+    "C07": ["RsLock", "RsForget", "RsGrow", "GPop"],
+    "C08": ["RtPred", "GPop", "RetLock", "UDrop"],
+    "C09": ["RtPred", "TkLock", "TkAdd", "RsForget", "ClLock"],
+    "C10": ["GWaitExpire", "Expire", "GUsers", "GAcq", "Tick"],
+    "C11": ["RsForget", "RsGrow", "ClLock", "TkLock", "RtPred"],
+    "C12": ["CSem", "CSsem", "CClear", "GClosed", "DClean", "AWaitPoll", "DropPool"],
+    "C13": ["Call", "GExit", "UDrop"],
+    "C14": ["StartJob", "Lock", "Release", "Cancel", "DropWrapper"],
+    "C15": ["Get", "GetResume", "InteractCancel", "Finish", "Break", "Invalidate"],
+    "C16": ["Get", "Drop", "Prepare", "PrepareJoin", "Clear", "Remove", "Take", "TakeBusy"],
+    "C17": ["Get", "Watch", "Take", "Return"],
+}
